@@ -4,6 +4,8 @@ use vstd::prelude::*;
 use super::felt_model::*;
 verus! {
 pub type Word = [Felt; 4];
+/// miden-crypto constant (external): a word is four field elements
+pub const WORD_SIZE: usize = 4;
 #[verifier::external_body] pub struct MerkleError { _p: u8 }
 #[verifier::external_body] pub struct ProverError { _p: u8 }
 #[verifier::external_body] pub struct QuadFelt { _p: u8 }
